@@ -808,6 +808,19 @@ fn lex_extract_oracle<W: Write>(o: &mut Out<W>, t: &lx::Term) {
     if got != stored {
         o.fail("C14", "-", "lexical extract_terms does not return the stored components", &format!("term={} got={}", ser::lterm(t), got.iter().map(ser::lterm).collect::<Vec<_>>().join(" ")));
     }
+    // the three category predicates partition the terms, and agree with `get_category`
+    {
+        let want = match t {
+            lx::Term::Atom { .. } => (true, false, false),
+            lx::Term::Compound { .. } | lx::Term::Set { .. } => (false, true, false),
+            lx::Term::Statement { .. } => (false, false, true),
+        };
+        let got = (t.is_atom(), t.is_compound(), t.is_statement());
+        let by_cat = (t.get_category() == TermCategory::Atom, t.get_category() == TermCategory::Compound, t.get_category() == TermCategory::Statement);
+        if got != want || by_cat != want {
+            o.fail("C14", "-", "lexical is_atom / is_compound / is_statement / get_category disagree with the kind of the term", &format!("term={} predicates={got:?} by-category={by_cat:?}", ser::lterm(t)));
+        }
+    }
     if !matches!(t, lx::Term::Atom { .. }) {
         for k in &stored {
             lex_extract_oracle(o, k);
@@ -1117,6 +1130,17 @@ fn surface<W: Write>(r: &mut Rng, cfg: &TermCfg, n: usize, o: &mut Out<W>) {
                         o.fail("C09", f, &format!("lexical parse_term does not read the term as lexical parse does ({what} spelling)"), &format!("text={hs} parse_term={lt} parse={lp}"));
                     }
                 }
+                // C15: every spelling of the value is classified as the value's kind, identically by both parsers
+                {
+                    let lp = o.run("lparse", f, &hs);
+                    let want = kind_name(&v);
+                    let ke = match e.split(' ').nth(2) { Some("NTerm") => "term", Some("NSentence") => "sentence", Some("NTask") => "task", _ => "none" };
+                    let kl = match lp.split(' ').nth(2) { Some("LNTerm") => "term", Some("LNSentence") => "sentence", Some("LNTask") => "task", _ => "none" };
+                    o.checked("C15");
+                    if ke != want || kl != want {
+                        o.fail("C15", f, &format!("a {want} is classified as {ke} by the enum parser and as {kl} by the lexical parser ({what} spelling)"), &format!("text={hs}"));
+                    }
+                }
                 o.checked("C03");
                 if e != l || !e.starts_with("ok ") {
                     o.fail("C03", f, "enum parse != fold(lexical parse)", &format!("variant={what} text={hs} enum={e} lexfold={l}"));
@@ -1199,18 +1223,108 @@ fn placeholder_edge_texts(ff: &EF<&str>) -> Vec<String> {
     out
 }
 
+/// number lists and stamps cut off at every stage, with and without a blank at the cut: the places where a reader
+/// that has just skipped blanks or a separator looks at "the next character" (the random truncations of formatter
+/// outputs almost never end in a blank, because the formatters print none inside an item)
+fn item_edge_texts(ff: &EF<&str>) -> Vec<String> {
+    let s = &ff.sentence;
+    let mut out = vec![];
+    // (a question or quest followed by a truth is legal input: the readers drop or keep the truth, they do not fail)
+    for p in [s.punctuation_judgement, s.punctuation_goal, s.punctuation_question, s.punctuation_quest] {
+        for tr in ["1", "1.0{sep}0.9", "0{sep}0", ""] {
+            let tr = tr.replace("{sep}", s.truth_separator);
+            for st in [String::new(), format!("{}{}{} ", s.stamp_brackets.0, s.stamp_present, s.stamp_brackets.1), format!("{}{}-1{} ", s.stamp_brackets.0, s.stamp_fixed, s.stamp_brackets.1)] {
+                out.push(format!("A{p} {st}{}{tr}{}", s.truth_brackets.0, s.truth_brackets.1));
+                out.push(format!("{}0.5{} A{p} {st}{}{tr}{}", ff.task.budget_brackets.0, ff.task.budget_brackets.1, s.truth_brackets.0, s.truth_brackets.1));
+            }
+        }
+    }
+    let lists = [(s.truth_brackets, s.truth_separator, format!("A{} ", s.punctuation_judgement)), (ff.task.budget_brackets, ff.task.budget_separator, String::new())];
+    for (br, sep, lead) in &lists {
+        for body in ["", "1", "1.0", "0.5", ".", "1.", "-", "+", "1e3", "0.5x"] {
+            for reps in 1..=3usize {
+                for tail_sep in [false, true] {
+                    let mut inner = vec![body; reps].join(sep);
+                    if tail_sep {
+                        inner.push_str(sep);
+                    }
+                    for cut in ["", " ", "  ", "\t", "\u{3000}"] {
+                        // unterminated, and terminated after the blank; alone (the side doors) and behind a sentence
+                        for close in ["", br.1] {
+                            out.push(format!("{}{inner}{cut}{close}", br.0));
+                            if !lead.is_empty() {
+                                out.push(format!("{lead}{}{inner}{cut}{close}", br.0));
+                            } else {
+                                out.push(format!("{}{inner}{cut}{close} A{}", br.0, s.punctuation_judgement));
+                            }
+                        }
+                    }
+                }
+            }
+        }
+    }
+    for kw in [s.stamp_past, s.stamp_present, s.stamp_future, s.stamp_fixed] {
+        for body in ["", "5", "-5", "+5", "-", "+", "5x", "99999999999999999999999"] {
+            for cut in ["", " "] {
+                for close in ["", s.stamp_brackets.1] {
+                    out.push(format!("{}{kw}{body}{cut}{close}", s.stamp_brackets.0));
+                    out.push(format!("A{} {}{kw}{body}{cut}{close}", s.punctuation_judgement, s.stamp_brackets.0));
+                }
+            }
+        }
+    }
+    out.retain(|t| t.chars().count() <= 512);
+    out.sort();
+    out.dedup();
+    out
+}
+
+/// well-formed ITEMS in combinations no formatter prints: every punctuation with every truth and stamp shape, items
+/// missing, doubled or (one time in four) in another order
+fn item_soup(r: &mut Rng, ff: &EF<&str>, v: &Narsese) -> String {
+    let s = &ff.sentence;
+    let mut items: Vec<String> = vec![];
+    for _ in 0..[0usize, 1, 1, 2][r.below(4)] {
+        items.push(ff.format_budget(&gen::budget(r)));
+    }
+    if r.chance(7, 8) {
+        items.push(ff.format_term(v.get_term()));
+    }
+    for _ in 0..[0usize, 1, 1, 1, 2][r.below(5)] {
+        items.push(r.pick(&[s.punctuation_judgement, s.punctuation_goal, s.punctuation_question, s.punctuation_quest]).to_string());
+    }
+    for _ in 0..[0usize, 0, 1, 1, 2][r.below(5)] {
+        let st = match r.below(5) { 0 => Stamp::Past, 1 => Stamp::Present, 2 => Stamp::Future, 3 => Stamp::Fixed(-1), _ => Stamp::Fixed(isize::MAX) };
+        items.push(ff.format_stamp(&st));
+    }
+    for _ in 0..[0usize, 1, 1, 2][r.below(4)] {
+        items.push(ff.format_truth(&gen::truth(r)));
+    }
+    if r.chance(1, 4) && items.len() > 1 {
+        let (i, j) = (r.below(items.len()), r.below(items.len()));
+        items.swap(i, j);
+    }
+    let sep = if r.chance(1, 4) { "" } else { " " };
+    items.join(sep).chars().take(512).collect()
+}
+
 fn malformed<W: Write>(r: &mut Rng, cfg: &TermCfg, n: usize, o: &mut Out<W>) {
     for f in FORMATS {
         let ff = efmt(f).unwrap();
         let kws = gen::keywords(ff);
-        let edge = placeholder_edge_texts(ff);
+        let mut edge = placeholder_edge_texts(ff);
+        edge.extend(item_edge_texts(ff));
         for i in 0..(n + edge.len()) {
             let s = if i < edge.len() {
                 edge[i].clone()
             } else {
                 let v = gen::narsese(r, cfg);
-                let base = ff.format_narsese(&v);
-                gen::malformed(r, &kws, &base)
+                if r.chance(1, 5) {
+                    item_soup(r, ff, &v)
+                } else {
+                    let base = ff.format_narsese(&v);
+                    gen::malformed(r, &kws, &base)
+                }
             };
             let hs = ser::hs(&s);
             let outs: Vec<(&str, String)> = ["eparse", "echars", "etruth", "ebudget", "estamp", "epunct", "lparse", "lparseterm", "lfold"]
@@ -1393,6 +1507,18 @@ fn rebuild(r: &mut Rng, t: &Term) -> Term {
 /// one small change somewhere (the result is usually, not always, a different term)
 fn mutate(r: &mut Rng, t: &Term) -> Term {
     use Term::*;
+    // a name that differs only by a blank around it is another name
+    if r.chance(1, 8) {
+        let pad = |r: &mut Rng, n: &str| -> String { let b = *r.pick(&[" ", "\u{3000}", "\t"]); if r.chance(1, 2) { format!("{b}{n}") } else { format!("{n}{b}") } };
+        match t {
+            Word(n) => return Word(pad(r, n)),
+            VariableIndependent(n) => return VariableIndependent(pad(r, n)),
+            VariableDependent(n) => return VariableDependent(pad(r, n)),
+            VariableQuery(n) => return VariableQuery(pad(r, n)),
+            Operator(n) => return Operator(pad(r, n)),
+            _ => {}
+        }
+    }
     if t.is_atom() || r.chance(1, 4) {
         return match t {
             Word(n) => if r.chance(1, 2) { Word(format!("{n}x")) } else { Operator(n.clone()) },
@@ -1498,7 +1624,8 @@ fn pair_check<W: Write>(o: &mut Out<W>, a: &Term, b: &Term, how: &str) {
     if (a == b) != (b == a) || !(a == a) || !(b == b) || (a == b) != (a == b) {
         o.fail("C06", "-", "== not reflexive/symmetric/stable", &detail);
     }
-    if a == b {
+    // `==` is asked both ways round: a one-sided "equal" is still an answer a hash table acts on
+    if a == b || b == a {
         o.checked("C07");
         if hash_with(std::collections::hash_map::DefaultHasher::new(), a) != hash_with(std::collections::hash_map::DefaultHasher::new(), b) {
             o.fail("C07", "-", "equal terms hash differently (DefaultHasher)", &detail);
@@ -1552,6 +1679,75 @@ fn pairs<W: Write>(r: &mut Rng, cfg: &TermCfg, n: usize, o: &mut Out<W>) {
                         if !(p1 == a && p3 == a && p1 == p3) {
                             o.fail("C06", f, "values built from the same description (constructors / parse of the text / lexical parse + fold) do not compare equal",
                                 &format!("text={} built={} parsed={} folded={}", ser::hs(&text), ser::term(&a, Mode::Raw), ser::term(&p1, Mode::Raw), ser::term(&p3, Mode::Raw)));
+                        }
+                    }
+                }
+            }
+        }
+        // one DESCRIPTION (a kind and a component list, now and then with equal neighbours), three ways to a value:
+        // the constructor, the variant itself, and the text read by either pipeline. An ordered compound keeps every
+        // component in place; an unordered one is the set of the list.
+        if r.chance(1, 3) {
+            let len = 2 + r.below(3);
+            let mut ks: Vec<Term> = (0..len).map(|_| { let d = r.below(2); gen::term(r, cfg, d) }).collect();
+            if r.chance(2, 3) {
+                let i = r.below(ks.len());
+                let dup = ks[i].clone();
+                ks.insert(i, dup);
+            }
+            if !ks.iter().any(gen::is_k1) {
+                let idx = r.below(ks.len() + 1);
+                let cases: Vec<(&str, Term, Term)> = vec![
+                    ("product", Term::new_product(ks.clone()), Term::Product(ks.clone())),
+                    ("conjunction_sequential", Term::new_conjunction_sequential(ks.clone()), Term::ConjunctionSequential(ks.clone())),
+                    ("image_extension", Term::new_image_extension(idx, ks.clone()), Term::ImageExtension(idx, ks.clone())),
+                    ("image_intension", Term::new_image_intension(idx, ks.clone()), Term::ImageIntension(idx, ks.clone())),
+                    ("set_extension", Term::new_set_extension(ks.clone()), Term::SetExtension(ks.iter().cloned().collect())),
+                    ("conjunction_parallel", Term::new_conjunction_parallel(ks.clone()), Term::ConjunctionParallel(ks.iter().cloned().collect())),
+                ];
+                // the same ordered compounds built in two steps: a prefix at once, the rest pushed (a placeholder is a
+                // component like any other for `push_components`, images included)
+                {
+                    let mut all = ks.clone();
+                    if r.chance(1, 2) {
+                        let at = r.below(all.len() + 1);
+                        all.insert(at, Term::Placeholder);
+                    }
+                    let k = r.below(all.len() + 1);
+                    let idx0 = r.below(k + 1);
+                    let steps: Vec<(&str, Term, Term)> = vec![
+                        ("product", Term::Product(all[..k].to_vec()), Term::Product(all.clone())),
+                        ("conjunction_sequential", Term::ConjunctionSequential(all[..k].to_vec()), Term::ConjunctionSequential(all.clone())),
+                        ("image_extension", Term::ImageExtension(idx0, all[..k].to_vec()), Term::ImageExtension(idx0, all.clone())),
+                        ("image_intension", Term::ImageIntension(idx0, all[..k].to_vec()), Term::ImageIntension(idx0, all.clone())),
+                    ];
+                    for (what, mut part, whole) in steps {
+                        if part.push_components(all[k..].to_vec()).is_ok() {
+                            pair_check(o, &part, &whole, "pushed-vs-variant");
+                            o.checked("C06");
+                            if part != whole {
+                                o.fail("C06", "-", &format!("a {what} built by pushing its last components does not equal the term built at once"),
+                                    &format!("prefix={} pushed={} got={} want={}", k, all[k..].iter().map(|x| ser::term(x, Mode::Raw)).collect::<Vec<_>>().join(" "), ser::term(&part, Mode::Raw), ser::term(&whole, Mode::Raw)));
+                            }
+                        }
+                    }
+                }
+                for (what, built, raw) in cases {
+                    pair_check(o, &built, &raw, "ctor-vs-variant");
+                    o.checked("C06");
+                    if built != raw {
+                        o.fail("C06", "-", &format!("new_{what}(components) does not equal the term these components describe"),
+                            &format!("components={} built={}", ks.iter().map(|k| ser::term(k, Mode::Raw)).collect::<Vec<_>>().join(" "), ser::term(&built, Mode::Raw)));
+                    }
+                    let text = ff.format_term(&raw);
+                    let p = ff.parse::<Narsese>(&text).ok();
+                    let l = lfmt(f).unwrap().parse(&text).ok().and_then(|lv| lv.try_fold_into(ff).ok());
+                    if let (Some(Narsese::Term(p)), Some(Narsese::Term(l))) = (p, l) {
+                        pair_check(o, &p, &raw, "parse-vs-variant");
+                        pair_check(o, &l, &raw, "fold-vs-variant");
+                        if !(p == raw && l == raw) {
+                            o.fail("C06", f, "the text of a term with repeated components, read by either pipeline, does not equal the term",
+                                &format!("text={} variant={} parsed={} folded={}", ser::hs(&text), ser::term(&raw, Mode::Raw), ser::term(&p, Mode::Raw), ser::term(&l, Mode::Raw)));
                         }
                     }
                 }
@@ -1637,6 +1833,54 @@ fn seqs<W: Write>(r: &mut Rng, cfg: &TermCfg, n: usize, o: &mut Out<W>) {
                 }
                 if single != again {
                     o.fail("C08", f, "parsing the same input twice gives different results", &ser::hs(s));
+                }
+            }
+            // no history at all: the same inputs on a fresh thread (thread-local caches start empty there), in another order
+            {
+                let here: Vec<String> = inputs.iter().map(|s| exec::eparse_out(ff, s)).collect();
+                let lhere: Vec<String> = inputs.iter().map(|s| exec::exec("lparse", f, &ser::hs(s)).unwrap_or_default()).collect();
+                let (inp, fname) = (inputs.clone(), f);
+                let fresh = std::thread::spawn(move || {
+                    let ff = efmt(fname).unwrap();
+                    let mut e: Vec<String> = inp.iter().rev().map(|s| exec::eparse_out(ff, s)).collect();
+                    let mut l: Vec<String> = inp.iter().rev().map(|s| exec::exec("lparse", fname, &ser::hs(s)).unwrap_or_default()).collect();
+                    e.reverse();
+                    l.reverse();
+                    (e, l)
+                }).join();
+                if let Ok((e, l)) = fresh {
+                    for (i, s) in inputs.iter().enumerate() {
+                        o.checked("C08");
+                        if e[i] != here[i] {
+                            o.fail("C08", f, "the enum parser's result depends on what this thread parsed before (a fresh thread gives another result)", &format!("text={} here={} fresh-thread={}", ser::hs(s), here[i], e[i]));
+                        }
+                        if l[i] != lhere[i] {
+                            o.fail("C08", f, "the lexical parser's result depends on what this thread parsed before (a fresh thread gives another result)", &format!("text={} here={} fresh-thread={}", ser::hs(s), lhere[i], l[i]));
+                        }
+                    }
+                }
+            }
+            // the same TEXT read by another format right afterwards: the result must be that of the other format alone
+            // (on a thread that has parsed nothing else)
+            for s in inputs.iter().take(3) {
+                for g in FORMATS {
+                    if g == f {
+                        continue;
+                    }
+                    let hs = ser::hs(s);
+                    let _ = (exec::eparse_out(ff, s), exec::exec("lparse", f, &hs));
+                    let e_after = exec::eparse_out(efmt(g).unwrap(), s);
+                    let l_after = exec::exec("lparse", g, &hs).unwrap_or_default();
+                    let (s2, hs2) = (s.clone(), hs.clone());
+                    if let Ok((e_alone, l_alone)) = std::thread::spawn(move || (exec::eparse_out(efmt(g).unwrap(), &s2), exec::exec("lparse", g, &hs2).unwrap_or_default())).join() {
+                        o.checked("C08");
+                        if e_after != e_alone {
+                            o.fail("C08", g, &format!("the enum parser's result for this text depends on a preceding {f} parse of the same text"), &format!("text={hs} after={e_after} alone={e_alone}"));
+                        }
+                        if l_after != l_alone {
+                            o.fail("C08", g, &format!("the lexical parser's result for this text depends on a preceding {f} parse of the same text"), &format!("text={hs} after={l_after} alone={l_alone}"));
+                        }
+                    }
                 }
             }
             // lexical parser reused on the shared static instance
@@ -2062,6 +2306,24 @@ fn small_terms(depth: usize) -> Vec<Term> {
     out
 }
 
+fn deep_towers() -> Vec<Term> {
+    let mut out = vec![];
+    for d in [63usize, 64, 65, 70, 100] {
+        let mut neg = Term::new_word("a");
+        let mut subj = Term::new_word("a");
+        let mut pred = Term::new_word("a");
+        let mut set = Term::new_word("a");
+        for _ in 0..d {
+            neg = Term::new_negation(neg);
+            subj = Term::new_inheritance(subj, Term::new_word("b"));
+            pred = Term::new_implication(Term::new_word("b"), pred);
+            set = Term::new_set_extension(vec![set]);
+        }
+        out.extend([neg, subj, pred, set]);
+    }
+    out
+}
+
 fn small<W: Write>(n: usize, o: &mut Out<W>) {
     // n = depth (1 or 2)
     let depth = n.clamp(1, 2);
@@ -2072,6 +2334,9 @@ fn small<W: Write>(n: usize, o: &mut Out<W>) {
     for w in ["现在", "过去", "将来的事", "现在a", "过去9", "Leftarrow", "downarrow1"] {
         terms.push(Term::new_word(w));
     }
+    // "any nesting depth": towers deeper than anything the random generators build (and deeper than the 64 levels
+    // the totality properties bound malformed input by)
+    terms.extend(deep_towers());
     let stamps = [Stamp::Eternal, Stamp::Past, Stamp::Present, Stamp::Future, Stamp::Fixed(-1)];
     let truths = [Truth::Empty, Truth::Single(1.0), Truth::Double(1.0, 0.9)];
     let budgets = [Budget::Empty, Budget::Single(0.5), Budget::Double(0.5, 0.75), Budget::Triple(0.5, 0.75, 0.4)];
@@ -2193,9 +2458,15 @@ fn grammar<W: Write>(r: &mut Rng, cfg: &TermCfg, n: usize, o: &mut Out<W>) {
     let ff = efmt("ascii").unwrap();
     let lf = lfmt("ascii").unwrap();
     let vocab = gen::vocab(lf, ff.atom.prefix_placeholder);
-    for i in 0..n {
+    let towers = deep_towers();
+    for i in 0..(n + 2 * towers.len()) {
         let text = if i % 2 == 0 {
-            let v = gen::narsese(r, cfg);
+            let v = if i / 2 < towers.len() {
+                let t = towers[i / 2].clone();
+                match i % 3 { 0 => Narsese::Term(t), 1 => Narsese::Sentence(Sentence::Judgement(t, Truth::Double(1.0, 0.9), Stamp::Present)), _ => Narsese::Task(Task(Sentence::Question(t, Stamp::Eternal), Budget::Single(0.5))) }
+            } else {
+                gen::narsese(r, cfg)
+            };
             o.count(&format!("kind.{}", kind_name(&v)));
             // recorded so that the check can evaluate the hypotheses of `ascii_conforms_enum` on this value
             let raw = ser::narsese(&v, Mode::Raw);
